@@ -79,6 +79,10 @@ and show_key k = match k with
 
 let handle = function
   | ["qpenc"; col; h] -> hex_of_bytes (qp_loop mAXCOL sEP (bytes_of_hex h) (z_of_i (int_of_string col)))
+  | ["qpencx"; mc; sep; col; h] -> hex_of_bytes (qp_loop (z_of_i (int_of_string mc)) (bytes_of_hex sep) (bytes_of_hex h) (z_of_i (int_of_string col)))
+  | ["qpdecm"; mime; h] -> let l = bytes_of_hex h in
+     (match qp_dec (nat_of_int (List.length l + 1)) (bool_of mime) l with Some l -> "S " ^ hex_of_bytes l | None -> "N")
+  | ["id"; h] -> h
   | ["qpdec"; h] -> (match qp_decode (bytes_of_hex h) with Some l -> "S " ^ hex_of_bytes l | None -> "N")
   | ["urienc"; plus; extl; cps] ->
      let ext = cps_of_string extl in
@@ -90,6 +94,10 @@ let handle = function
   | ["jexpect"; t] -> "V " ^ show_json (utf8_val (parse_json t))
   | ["b64enc"; h] -> hex_of_bytes (b64_encode (bytes_of_hex h))
   | ["b64dec"; h] -> hex_of_bytes (b64_decode (bytes_of_hex h))
+  | ["b64sdec"; n; h] -> (match b64_stream_decode (nat_of n) (bytes_of_hex h) with Some l -> "S " ^ hex_of_bytes l | None -> "FUEL")
+  | ["b64senc"; n; h] -> (match b64_stream_encode (nat_of n) (bytes_of_hex h) with Some l -> "S " ^ hex_of_bytes l | None -> "FUEL")
+  | ["b64hdr"; name; h; sc; mc; nl] ->
+     hex_of_bytes (b64_header (bytes_of_hex name) (bytes_of_hex h) (z_of_i (int_of_string sc)) (z_of_i (int_of_string mc)) (bytes_of_hex nl))
   | ["intenc"; w; big; v] -> hex_of_bytes (encode_int (nat_of w) (bool_of big) (z_of_hex v))
   | ["intdec"; w; sg; big; h] -> hex_of_z (decode_int (nat_of w) (bool_of sg) (bool_of big) (bytes_of_hex h))
   | ["bvref"; w; sg; big; h; k] ->
